@@ -34,6 +34,10 @@ def macro_stream(nontrivial=(), quick=240, thorough=4000, what=""):
         "nontrivial": list(nontrivial),
     }
 
+def sched_stream(nontrivial=(), quick=(6, 4, 120), thorough=(14, 10, 1500), what=""):
+    return {"kind": "sched", "budget": {"quick": quick, "thorough": thorough}, "nontrivial": list(nontrivial),
+            "what": what or "L3: 2-3 real threads running short programs (calls that overflow a hot cache, tag/event/name/conditional invalidations, statistics queries) on real generated functions under a deterministic scheduler that switches at every lock acquisition (hook H1): seeded random schedules, then stateless DFS (exhaustive when the space fits the budget); deadlock = all unfinished threads parked at held locks; every operation's real lock trace checked against the Lean skeleton; quiescent dumps; sequential probe history vs the model"}
+
 def lines_stream(bin_, mode, args, quick, thorough, what, nontrivial_re="."):
     return {"kind": "lines", "bin": bin_, "mode": mode, "args": args, "n": {"quick": quick, "thorough": thorough},
             "what": what, "nontrivial_re": nontrivial_re}
@@ -44,7 +48,7 @@ TECH = "Lean 4 theorem (induction over operation histories / invariants) + per-s
 
 PROPS = {
     "C01": {
-        "lean_modules": ["Cachelito.Props.C01"],
+        "lean_modules": ["Cachelito.Props.C01", "Cachelito.Props.C01b"],
         "streams": [core_stream(nontrivial=["hit", "re-store"]), macro_stream(nontrivial=["hit"])],
         "monitors": ["C01"],
         "rule": "L1: generated engine histories; non-trivial = a lookup that returned a value or a store that replaced one. L2: generated call histories on real generated functions; non-trivial = a call served from the cache; distinct by (config, pre-state, op) resp. (op, observation)",
@@ -151,8 +155,18 @@ PROPS = {
         "level_note": MODEL_NOTE,
         "technique": TECH, "design_ref": "DESIGN.md §7 C13", "assumptions": ["distinct cache names"],
     },
+    "C17": {
+        "lean_modules": ["Cachelito.Props.C17"],
+        "streams": [sched_stream(nontrivial=["nested-acquisition"])],
+        "monitors": ["C17"],
+        "rule": "scheduled runs of real threads; a run is non-trivial when some thread acquired a lock while holding another (nesting is what can deadlock); distinct by (schedule, event trace)",
+        "level_text": "Lean theorems: for any number of threads running operations whose lock skeletons are rank-disciplined (every nested acquisition strictly increases the rank registry < queue mutex < store lock), in every reachable state with an unfinished thread some thread is enabled (also under writer preference and any work-conserving granting policy), every maximal run finishes all threads, and EVERY operation of cachelito (46-entry skeleton table, any universe of caches) is rank-disciplined; the pre-fix conditional-invalidation callback is not, with a kernel-checked deadlocked state. Tied to the code by recording every real lock acquisition/release (hook H1) under a deterministic scheduler: each operation's real trace must be a path of its skeleton and rank-ordered; no explored schedule deadlocks.",
+        "level_note": MODEL_NOTE + " parking_lot fairness beyond writer preference, DashMap shard locks (never held at a yield point) and `Once` cells are modelled, not observed; user predicates that call back into a cache are outside the property.",
+        "technique": "Lean 4 theorem (lock-rank argument over all interleavings) + real lock traces checked against the model's skeletons + deterministic schedule exploration of real threads",
+        "design_ref": "DESIGN.md §7 C17", "assumptions": ["user callbacks do not re-enter the cache or the registries"],
+    },
     "C15": {
-        "lean_modules": ["Cachelito.Props.C15"],
+        "lean_modules": ["Cachelito.Props.C15", "Cachelito.Props.C15b"],
         "streams": [core_stream(nontrivial=["hit", "expiry"]), macro_stream(nontrivial=["stats-get", "stats-reset", "hit"])],
         "monitors": ["C15"],
         "rule": "L1: counters in every state dump; L2: stats_registry::get(name) after every call, get/reset by name incl. unknown names; non-trivial = hit, expiry-as-miss, stats query or reset",
